@@ -6,6 +6,7 @@ import Std.Data.String.ToNat
 import GoZero.Extracted.C19
 import GoZero.C19.Lua
 import GoZero.C19.Proofs
+import GoZero.C19.Ids
 namespace GoZero.C19.Tie
 open GoZero.C19
 open GoZero.C19.Lua
@@ -290,6 +291,22 @@ theorem tie_idAlphabet :
     Extracted.C19.letterIdxBits = 6 ∧
     letterIdxDerived = ["letterIdxMask = 1<<letterIdxBits - 1", "letterIdxMax = 63 / letterIdxBits"] := by
   decide
+
+/-- the derived constants evaluated (own evaluator with shifts, Go precedence): the mask is the `letterIdxBits`
+low bits, and `letterIdxMax` indices of `letterIdxBits` bits fit into the 63 bits of `Int63` -/
+theorem tie_randnConsts :
+    letterIdxMask = 2 ^ 6 - 1 ∧ Extracted.C19.letterIdxBits = 6 ∧ letterIdxMax = 10 ∧ letterIdxMax * 6 ≤ 63 ∧
+    randnShift = 6 := by decide
+
+/-- **the decision-making expressions of Randn's loop, translated, are the model's** (`Ids.lean`): the `j`-th index
+read from an `Int63` value is the model's draw, and an index is used iff the model's filter accepts it; the
+model's alphabet is the `letterBytes` of the tree and an accepted index selects `letterBytes[idx]`. -/
+theorem tie_randnLoop :
+    (∀ v, drawsOfInt63 v = (List.range letterIdxMax).map fun j => randnIdx (v >>> (randnShift * j))) ∧
+    (∀ idx, randnAccept idx = decide (idx < 62)) ∧
+    idAlphabet = Extracted.C19.letterBytes.toList ∧
+    Extracted.C19.letterBytes.length = 62 := by
+  refine ⟨fun v => rfl, fun idx => rfl, by decide, by decide⟩
 
 theorem tie_randnBody : randnBody =
     ["b := make([]byte, n)",
